@@ -454,7 +454,9 @@ class E4Session(SessionBase):
             return {'kind': 'waived'}
         for k, v in fig.items():
             with np.errstate(invalid='ignore'):
-                bad = ~(np.isclose(v, self.probe_ref[1][k], rtol=0, atol=1e-4) | (np.isinf(v) & np.isinf(self.probe_ref[1][k])))
+                ref = self.probe_ref[1][k]
+                bad = ~(np.isclose(v, ref, rtol=0, atol=1e-4) | (np.isinf(v) & np.isinf(ref)) | (np.isnan(v) & np.isnan(ref))) \
+                    if v.shape == ref.shape else np.array([True])
             if v.shape != self.probe_ref[1][k].shape or np.any(bad):
                 raise Violation('C17', 'saved-design-gives-different-propagation-results',
                                 f'{k}: max diff {float(np.nanmax(np.abs(v - self.probe_ref[1][k]))):.2e} dB')
